@@ -204,36 +204,40 @@ impl Deref for Packet {
 }
 
 fn packet(i: &[u8]) -> nom::IResult<&[u8], (u8, Packet)> {
-    nom::combinator::map(
+    let (rest, (seq, pkt, in_order)) = nom::combinator::map(
         nom::sequence::pair(
             nom::multi::fold_many0(
                 fullpacket,
-                || (0, None),
-                |(seq, pkt): (_, Option<Packet>), (nseq, p)| {
-                    let pkt = if let Some(mut pkt) = pkt {
-                        assert_eq!(nseq, u8::wrapping_add(seq, 1));
+                || (0, None, true),
+                |(seq, pkt, in_order): (_, Option<Packet>, bool), (nseq, p)| {
+                    if let Some(mut pkt) = pkt {
                         pkt.extend(p);
-                        Some(pkt)
+                        (nseq, Some(pkt), in_order && nseq == u8::wrapping_add(seq, 1))
                     } else {
-                        Some(Packet(Vec::from(p)))
-                    };
-                    (nseq, pkt)
+                        (nseq, Some(Packet(Vec::from(p))), in_order)
+                    }
                 },
             ),
             onepacket,
         ),
         move |(full, last)| {
             let seq = last.0;
-            let pkt = if let Some(mut pkt) = full.1 {
-                assert_eq!(last.0, u8::wrapping_add(full.0, 1));
+            if let Some(mut pkt) = full.1 {
                 pkt.extend(last.1);
-                pkt
+                (seq, pkt, full.2 && seq == u8::wrapping_add(full.0, 1))
             } else {
-                Packet(Vec::from(last.1))
-            };
-            (seq, pkt)
+                (seq, Packet(Vec::from(last.1)), true)
+            }
         },
-    )(i)
+    )(i)?;
+    if !in_order {
+        // the fragments of one payload must carry consecutive sequence ids
+        return Err(nom::Err::Failure(nom::error::Error::new(
+            &i[..0],
+            nom::error::ErrorKind::Verify,
+        )));
+    }
+    Ok((rest, (seq, pkt)))
 }
 
 #[cfg(test)]
